@@ -575,10 +575,11 @@ def fam_maintenance(rng, quick):
         ops.append({"op": "commit"})
         for d in dels:
             ops.append({"op": "delete", "frame": d})
-        if rng.random() < 0.5:
+        if len(out) % 3 == 1:
             ops.append({"op": "update", "frame": 1, "pay": 9, "cls": "bin", "size": 120})
-        else:
+        elif len(out) % 3 == 2:
             ops.append({"op": "update", "frame": 1, "meta": {"title": 3}})
+        # (every third variant: no update, so that deleted frames stay at the tail of the table)
         if commit_first:
             ops.append({"op": "commit"})
         ops += [{"op": "vacuum"}, {"op": "timeline"},
